@@ -403,15 +403,22 @@ def sweep_c12(n, seed):
     fails.setdefault(fid, dict(id=fid, **kw))
   tmp = tempfile.mkdtemp(prefix='c12lists')
   real_time = P.time
+  mtime0 = int(real_time.time()) - 10 * 86400
   try:
     for it in range(n):
       wl, bl = rnd.choice(LISTS), rnd.choice(LISTS)
       for (obj, lines, fname) in ((WhiteList, wl, 'whitelist.conf'), (BlackList, bl, 'blacklist.conf')):
-        path = os.path.join(tmp, '%d-%s' % (it, fname))
+        # the operator installs revision `it` of the list file: same path, modification time later
+        # than that of the previous revision (all of them in the past, as with rsync -t / cp -p /
+        # config management), then the periodic read_list() runs
+        path = os.path.join(tmp, fname)
         with open(path, 'w') as f:
           f.write('\n'.join(lines) + ('\n' if lines else ''))
-        obj.list_file = path
-        obj.rules_last_read = 0.0
+        os.utime(path, (mtime0 + it, mtime0 + it))
+        if it == 0:
+          obj.list_file = path
+          obj.rules_last_read = 0.0          # daemon start
+          obj.regex_list = []
         obj.read_list()
       wpat, bpat = valid_patterns(wl), valid_patterns(bl)
       res = rnd.choice([0, 1, 10, 60])
@@ -445,8 +452,9 @@ def sweep_c12(n, seed):
           ok = len(h.got) == len(want) and all(g[0] == w[0] and g[1][0] == w[1][0] and (g[1][1] == w[1][1]) for g, w in zip(h.got, want))
           if not ok:
             fid = 'c12-filter' if len(h.got) != len(want) else 'c12-normalisation'
-            fail(fid, listener=listener, whitelist=wl, blacklist=bl, resolution=res, metric=m, timestamp=ts, value=repr(v),
-                 now=FakeTime.now, delivered=repr(h.got), expected=repr(want))
+            fail(fid, listener=listener, whitelist=wl, blacklist=bl, list_file_revision=it, resolution=res, metric=m, timestamp=ts, value=repr(v),
+                 now=FakeTime.now, delivered=repr(h.got), expected=repr(want),
+                 patterns_in_force={'whitelist': [r.pattern for r in WhiteList.regex_list], 'blacklist': [r.pattern for r in BlackList.regex_list]})
   finally:
     P.time = real_time
     WhiteList.regex_list, BlackList.regex_list = [], []
